@@ -33,10 +33,11 @@ TIERS = {
 }
 STEP_CAP = 500000
 SHRINK_BUDGET = 250
-FAULT_OPS = ("restart", "redeliver", "alloc", "gc", "prune", "side_job")
+FAULT_OPS = ("restart", "redeliver", "alloc", "gc", "prune", "side_job", "reorder_library")
 PROBES = ["redelivery_hit_template", "restart_between_batches", "near_miss_same_pregroup",
           "class_of_size_ge3_split_across_batches", "single_batch_no_template_path", "relabelled_duplicate",
           "one_shot_compared", "lib_check_new_class", "lib_check_existing_class", "library_ids_not_contiguous",
+          "library_not_in_ascending_class_order", "empty_centre_item", "caller_postprocessed_returned_entries",
           "two_service_objects_share_library", "service_object_did_side_job", "item_derived_from_delivered_object"]
 REAL = ["synkit.Graph.Matcher.batch_cluster.BatchCluster.fit / cluster / lib_check / batch_dicts",
         "synkit.Graph.Matcher.graph_cluster.GraphCluster.fit / iterative_cluster",
@@ -82,6 +83,10 @@ def gen_items(rng, pool: List[int], n: int, near_p: float) -> List[Dict[str, Any
             sp["relabel"] = None
             sp["derive"] = rng.choice(["copy", "deepcopy", "pickle"])
         out.append(sp)
+    if rng.random() < 0.06:
+        out.insert(rng.randrange(len(out) + 1), {"base": "empty", "relabel": None, "edit": None})
+        if rng.random() < 0.7:
+            out.insert(rng.randrange(len(out) + 1), {"base": "empty", "relabel": None, "edit": None})
     return out
 
 
@@ -111,6 +116,8 @@ def generate(seed: int, tier: str = "quick") -> Dict[str, Any]:
         if faulty and rng.random() < 0.08:
             # the same long-lived service object does an unrelated job with its own (empty) library in between
             ops.append({"op": "side_job", "s": s(), "inst": rng.choice([0, 1]), "items": gen_items(rng, pool, rng.randint(1, 4), near_p)})
+        if faulty and rng.random() < 0.08:
+            ops.append({"op": "reorder_library", "s": s(), "how": rng.choice(["shuffle", "reverse", "by_attr"])})
         if faulty and rng.random() < 0.08:
             ops.append({"op": "prune", "s": s(), "drop": [rng.randrange(8) for _ in range(rng.randint(1, 2))]})
         if faulty and c < 0.12:
@@ -164,6 +171,12 @@ def _run(case: Dict[str, Any], sim: Sim, world: World) -> None:
         return bcs[i]
 
     def mk(sp: Dict[str, Any], uid: int) -> Dict[str, Any]:
+        if sp["base"] == "empty":
+            d0: Dict[str, Any] = {"gml": rcdata.build(sp), "uid": uid}
+            if akey:
+                d0[akey] = rcdata.invariant_attr_kind(d0["gml"], case["cfg"].get("attr_kind", "str"))
+            sim.probe("empty_centre_item")
+            return d0
         src_key = str(sp["base"] % len(rcdata.items()))
         if sp.get("derive") and sp.get("edit") and src_key in held:
             src = held[src_key]
@@ -231,6 +244,14 @@ def _run(case: Dict[str, Any], sim: Sim, world: World) -> None:
             if "class" not in d:
                 raise Violation(PROP, site, "item_without_class", cond, {"item": sp})
             seen[uid]["cls"] = d["class"]
+        # the caller post-processes what it got back (renames / drops keys, as HierContext does with 'class'):
+        # the library must not be affected by that
+        if specs and (uids[0] % 2 == 0):
+            for d in out:
+                d["my_class"] = d.pop("class")
+                if uids[0] % 4 == 0:
+                    d.pop("gml", None)
+            sim.probe("caller_postprocessed_returned_entries")
 
     for op in case["ops"]:
         sim.step()
@@ -243,6 +264,23 @@ def _run(case: Dict[str, Any], sim: Sim, world: World) -> None:
         if k == "gc":
             world.main_alloc.collect()
             sim.event("gc", None)
+            continue
+        if k == "reorder_library":
+            # the caller keeps the durable library in another order (most-hit first, sorted, merged and reloaded ...)
+            if len(templates) >= 2:
+                r_ = rng_for(op.get("s", 0), "reorder")
+                if op["how"] == "reverse":
+                    templates = list(reversed(templates))
+                elif op["how"] == "shuffle":
+                    templates = list(templates)
+                    r_.shuffle(templates)
+                else:
+                    templates = sorted(templates, key=lambda t: (repr(t.get(akey)), -int(t["class"]) if isinstance(t["class"], int) else 0))
+                ids = [t["class"] for t in templates]
+                if ids != sorted(ids):
+                    sim.fault("reorder_library")
+                    sim.probe("library_not_in_ascending_class_order")
+            sim.event("reorder_library", len(templates))
             continue
         if k == "prune":
             # the caller compacts the durable library: some representatives (and with them their classes) are
